@@ -17,7 +17,7 @@ type ValueRange struct {
 func (_ ValueRange) Kind() ValueKind { return RangeValueKind }
 
 func (self ValueRange) Display() (string, *Interrupt) {
-	return fmt.Sprintf("%d..%d", *self.Start, *self.End), nil
+	return fmt.Sprintf("%d..%d", (*self.Start).(ValueInt).Inner, (*self.End).(ValueInt).Inner), nil
 }
 
 func (self ValueRange) IsEqual(other Value) (bool, *Interrupt) {
